@@ -257,7 +257,18 @@ def _check_large(case):
         info = W.read_riff(out)
         if info["samples"] != s[a:b]:
             viols.append(Viol("extract-content", f"extractSubwav {tag}: the file holds {len(info['samples'])} samples, expected the {b - a} source samples"))
-        return 1, "ok", (width, n, kind, len(ivs)), viols
+        # the output file IS the input file (trimming a recording in place): the stretch is read before anything is written over it
+        import shutil
+        inplace = os.path.join(scratch_dir(), "c17-big-inplace.wav")
+        shutil.copyfile(fn, inplace)
+        st, r, _ = call(audio.extractSubwav, inplace, inplace, a / rate, b / rate)
+        if st == "exc":
+            viols.append(Viol("extract-raised:" + type(r).__name__, f"extractSubwav onto its own source file, {tag}: {r!r}"))
+        elif W.read_riff(inplace)["samples"] != s[a:b]:
+            viols.append(Viol("extract-in-place", f"extractSubwav with the source file as output file, {tag}: the file holds "
+                                                  f"{len(W.read_riff(inplace)['samples'])} samples, expected the {b - a} source samples"))
+        os.remove(inplace)
+        return 2, "ok", (width, n, kind, len(ivs)), viols
     if kind == "query":
         a, b = ivs[0]
         st, q, _ = call(audio.QueryWav, fn)
